@@ -189,11 +189,13 @@ Theorem C01_keys_list_qubit0_first :
 Proof. exact binstr_key_of_state. Qed.
 Print Assumptions C01_keys_list_qubit0_first.
 
-(* sampled mode: the key -> integer -> key maps around the sampler are inverse to each other, so a
-   sampled key is one of the exact keys (for either advertised order) *)
+(* sampled mode: the key -> integer -> key maps around the sampler (int(k[::-1], 2) and
+   _int_to_binstr(k, n, False): regenerated fact that the source still uses exactly these) are inverse to each
+   other, so a sampled key is one of the exact keys — for EITHER advertised order *)
 Theorem C01_sample_key_roundtrip :
-  forall (ord : string) (key : list bool), key <> [] -> sample_key ord (length key) (sample_value key) = key.
-Proof. exact sample_roundtrip. Qed.
+  sampling_keys_as_modelled = true
+  /\ forall (ord : string) (key : list bool), key <> [] -> sample_key ord (length key) (sample_value key) = key.
+Proof. split; [reflexivity|exact sample_roundtrip]. Qed.
 Print Assumptions C01_sample_key_roundtrip.
 
 (* sampled mode: the chunk loop of _statevector_to_frequencies has the modelled shape (regenerated fact,
